@@ -148,6 +148,14 @@ pub struct FnSpec {
     pub has_gen: bool,
 }
 
+/// Parameter names whose alphabetical order differs from their declared order (a bug that sorts or hashes names must show).
+pub const NAME_POOL: [&str; 8] = ["zed", "alpha", "mid", "quux", "beta", "yak", "cee", "kilo"];
+
+pub fn param_names(t: &mut Tape, n: usize) -> Vec<String> {
+    let perm = t.permutation(NAME_POOL.len());
+    (0..n).map(|i| NAME_POOL[perm[i % NAME_POOL.len()]].to_string()).collect()
+}
+
 pub fn gen_params(t: &mut Tape, max: usize, allow_patterns: bool, mock_safe: bool) -> Vec<Param> {
     let n = t.weighted(&[1, 3, 4, 3, 2, 1, 1]).min(max);
     let mut out: Vec<Param> = vec![];
@@ -175,6 +183,10 @@ pub fn gen_params(t: &mut Tape, max: usize, allow_patterns: bool, mock_safe: boo
         // `&mut` arguments are observed after the call: keep them nameable
         let pk = if vt == VT::MutVec && !matches!(pk, PK::Plain) { PK::Plain } else { pk };
         out.push(Param { vt, pk, name: format!("p{i}") });
+    }
+    let names = param_names(t, out.len());
+    for (p, n) in out.iter_mut().zip(names) {
+        p.name = n;
     }
     out
 }
